@@ -601,7 +601,7 @@ func c13renameTips(m *rm.Tree, f func(string) string) *rm.Tree {
 	return c
 }
 
-var c13nexusVariants = []string{"taxa+trees", "trees-only", "translate-1-based-commas", "rooting-comments", "lower-case-crlf", "translate-compact"}
+var c13nexusVariants = []string{"taxa+trees", "trees-only", "translate-1-based-commas", "rooting-comments", "lower-case-crlf", "translate-compact", "same-tree-name"}
 
 // c13nexusDoc writes a Nexus document the standard way (not the way gotree's writer does).
 func c13nexusDoc(list []*rm.Tree, variant string) string {
@@ -656,7 +656,11 @@ func c13nexusDoc(list []*rm.Tree, variant string) string {
 		if translate {
 			t = c13renameTips(m, func(s string) string { return num[s] })
 		}
-		sb.WriteString("\t" + kw("TREE") + " " + fmt.Sprintf("tr_%c", 'a'+i) + " = ")
+		tname := fmt.Sprintf("tr_%c", 'a'+i)
+		if variant == "same-tree-name" {
+			tname = "rep" // replicate files: every tree carries the same name
+		}
+		sb.WriteString("\t" + kw("TREE") + " " + tname + " = ")
 		if variant == "rooting-comments" {
 			if m.Rooted() {
 				sb.WriteString("[&R] ")
